@@ -74,7 +74,21 @@ def prim2d(ctx, center, scale, kinds=("circle", "parallelogram", "triangle", "po
     V = c + np.stack([rad * np.cos(th), rad * np.sin(th)], 1)
     if rng.random() < 0.5:
         V = V[::-1]
-    return {"prim": "polygon", "var": "x", "vertices": [[float(a), float(b)] for a, b in V]}
+    spec = {"prim": "polygon", "var": "x", "vertices": [[float(a), float(b)] for a, b in V]}
+    if rng.random() < 0.3:
+        # a hole inside the kernel of the star shaped polygon (or a convex outline with a hole), either vertex order
+        if rng.random() < 0.5:
+            th2 = np.linspace(0, 2 * math.pi, nv, endpoint=False) + rng.uniform(0, 1)
+            V = c + scale * rng.uniform(0.9, 1.2) * np.stack([np.cos(th2), np.sin(th2)], 1)
+            spec["vertices"] = [[float(a), float(b)] for a, b in V]
+        rh = 0.3 * scale
+        m = int(rng.integers(3, 6))
+        tt = np.linspace(0, 2 * math.pi, m, endpoint=False) + rng.uniform(0, 1)
+        H = c + rng.uniform(-0.1, 0.1, 2) * scale + rh * np.stack([np.cos(tt), np.sin(tt)], 1)
+        if rng.random() < 0.5:
+            H = H[::-1]
+        spec["holes"] = [[[float(a), float(b)] for a, b in H]]
+    return spec
 
 
 def prim1d(ctx, center, scale):
